@@ -128,7 +128,7 @@ func gnConfFiles(schemas string) (string, string, error) {
 		}
 		gnConfDir = d
 	}
-	sf := filepath.Join(gnConfDir, fmt.Sprintf("schemas-%d.conf", len(schemas)*7919+int(simrt.Mix(uint64(len(schemas)), hashStr(schemas))%100000)))
+	sf := filepath.Join(gnConfDir, fmt.Sprintf("schemas-%016x-%d.conf", hashStr(schemas), len(schemas)))
 	if _, err := os.Stat(sf); err != nil {
 		if err := ioutil.WriteFile(sf, []byte(schemas), 0644); err != nil {
 			return "", "", err
